@@ -163,6 +163,10 @@ func main() {
 		oracleReset(r, rep, c%3)
 		oracleClone(r, rep, c%3)
 		oracleChunks(r, rep, c%3)
+		oracleRefused(r, rep, c%3)
+	}
+	for c := 0; c < nRS; c++ {
+		rsHistory(rng.Fork(), rep)
 	}
 	// ---------------- random.Bits: every bit length 0..1030, both modes
 	step := 1
@@ -414,6 +418,107 @@ func oracleReset(r *vh.Rng, rep *vh.Report, kind int) {
 		rep.Fail(key, "Reset does not return the XOF to its seeded initial state",
 			map[string]interface{}{"kind": kindName[kind], "seed": vh.Hex(seed), "history": hist,
 				"after_reset": vh.Hex(got), "fresh": vh.Hex(want)})
+	}
+}
+
+// a call that is refused (panics: destination shorter than source) leaves the
+// state as it was: the object continues exactly like a twin that never made it
+func oracleRefused(r *vh.Rng, rep *vh.Report, kind int) {
+	seed := r.Bytes(r.Pick(seedLens))
+	x, y := newXof(kind, seed), newXof(kind, seed)
+	pre := r.Intn(200)
+	x.Read(make([]byte, pre))
+	y.Read(make([]byte, pre))
+	var early []kyber.XOF
+	if r.Bool() {
+		early = append(early, x.Clone())
+	}
+	ls := 1 + r.Intn(300)
+	ld := r.Intn(ls)
+	refused, msg := vh.Try(func() { x.XORKeyStream(make([]byte, ld), make([]byte, ls)) })
+	rep.Dist(fmt.Sprintf("oracle:refused-call:%s:panicked=%v", kindName[kind], refused))
+	if !refused {
+		return // the call was served: nothing to compare
+	}
+	got, want := make([]byte, 96), make([]byte, 96)
+	x.Read(got)
+	y.Read(want)
+	ctx := map[string]interface{}{"kind": kindName[kind], "seed": vh.Hex(seed), "read_before": pre, "src_len": ls, "dst_len": ld, "panic": msg,
+		"after_refused_call": vh.Hex(got), "twin": vh.Hex(want)}
+	if !bytes.Equal(got, want) {
+		rep.Fail(kindName[kind]+".refused-call-changes-state", "an XORKeyStream call that was refused (destination shorter than source) changed the XOF state", ctx)
+	}
+	for _, c := range early {
+		cw := make([]byte, 96)
+		c.Read(cw)
+		if !bytes.Equal(cw, want) {
+			rep.Fail(kindName[kind]+".refused-call-changes-clone", "a clone taken before a refused call no longer continues like the twin", ctx)
+		}
+	}
+}
+
+// flakyReader fails while down is set, and delivers its data otherwise
+type flakyReader struct {
+	data []byte
+	down bool
+}
+
+func (f *flakyReader) Read(p []byte) (int, error) {
+	if f.down || len(f.data) == 0 {
+		return 0, io.ErrUnexpectedEOF
+	}
+	n := copy(p, f.data)
+	f.data = f.data[n:]
+	return n, nil
+}
+
+// rsHistory: a multi-source stream has no memory: whatever happened in earlier
+// calls (all sources failing and the call panicking, some sources short), a
+// later call returns what a fresh stream over the same sources returns.
+func rsHistory(r *vh.Rng, rep *vh.Report) {
+	nr := 1 + r.Intn(3)
+	var fl []*flakyReader
+	var rs []io.Reader
+	for i := 0; i < nr; i++ {
+		f := &flakyReader{data: r.Bytes(400)}
+		fl = append(fl, f)
+		rs = append(rs, f)
+	}
+	s := random.New(rs...)
+	var hist []string
+	for step := 0; step < 4; step++ {
+		// choose which sources are down in this call
+		mode := r.Intn(4)
+		up := 0
+		for i, f := range fl {
+			switch mode {
+			case 0:
+				f.down = true
+			case 1:
+				f.down = false
+			default:
+				f.down = r.Bool() && i > 0
+			}
+			if !f.down {
+				up++
+			}
+		}
+		// a fresh stream over copies of the sources in the same condition
+		var rs2 []io.Reader
+		for _, f := range fl {
+			rs2 = append(rs2, &flakyReader{data: append([]byte{}, f.data...), down: f.down})
+		}
+		l := r.Pick([]int{1, 16, 32, 33, 64})
+		got, want := make([]byte, l), make([]byte, l)
+		p1, _ := vh.Try(func() { s.XORKeyStream(got, make([]byte, l)) })
+		p2, _ := vh.Try(func() { random.New(rs2...).XORKeyStream(want, make([]byte, l)) })
+		hist = append(hist, fmt.Sprintf("call %d: %d of %d sources up, len %d, panicked=%v", step, up, nr, l, p1))
+		rep.Dist(fmt.Sprintf("rs-history:up=%d/%d", up, nr))
+		if p1 != p2 || (!p1 && !bytes.Equal(got, want)) {
+			rep.Fail("random.New-history-dependent", "a multi-source stream behaves differently from a fresh stream over the same sources after an earlier call",
+				map[string]interface{}{"history": hist, "reused_stream_panicked": p1, "fresh_stream_panicked": p2, "reused": vh.Hex(got), "fresh": vh.Hex(want)})
+			return
+		}
 	}
 }
 
